@@ -11,7 +11,7 @@
    hold (side index * N + address).  The driver preloads both real memories with
    known bytes and translates codes back into bytes, so that one behaviour can
    be replayed at several byte scales (a cell = 1 byte, or 16 bytes, which maps
-   the granularities {4,8,16} to {64,128,256}).
+   the granularities {4,8,12,16} to {64,128,192,256}).
 
    A behaviour is: choose a configuration; submit 1..MaxReqs accepted requests
    (a later one either queued behind the earlier ones or sent after their
